@@ -55,10 +55,11 @@ def run(ctx):
             continue
         bad, info = session.check_iterative_history(pb, opts, S["ret"], S["events"], S["ll_lib"], S["eval_log"])
         keys = [b[0] for b in bad]
-        if "inconclusive-pattern" in keys and len(keys) == 1:
+        if "inconclusive-pattern" in keys:
             ctx.count("pattern_not_found")
-            ctx.note(bad[0][1])
-            continue
+            ctx.note([b[1] for b in bad if b[0] == "inconclusive-pattern"][0])
+            if len(keys) == 1:
+                continue
         if "borderline" in keys:
             ctx.borderline += 1
             continue
